@@ -220,10 +220,14 @@ func c08Run(c *mc.Ctx, cfg c08Config, mtu int, inputs [][]byte) {
 		return s
 	}
 	for k, in := range inputs {
-		bufA, bufB := clone(in), clone(in)
+		bufA, intact := guard(in)
+		bufB := clone(in)
 		outA := a.Payload(uint16(mtu), bufA)
 		if !bytes.Equal(bufA, in) {
 			c.Failf("input-modified", "%s: Payload changed the caller's buffer to %s", desc(k), hx(bufA))
+		}
+		if !intact() {
+			c.Failf("input-modified", "%s: Payload wrote into the caller's array outside the slice it was given (spare capacity)", desc(k))
 		}
 		outB := b.Payload(uint16(mtu), bufB)
 		c.Ops(2)
@@ -452,10 +456,11 @@ func c08Steady(c *mc.Ctx) {
 	returned := 0
 	for k := 0; k < calls; k++ {
 		in := c08Sized(cfg.family, size, byte(k*7+1))
-		bufA, bufB := clone(in), clone(in)
+		bufA, intact := guard(in)
+		bufB := clone(in)
 		outA := a.Payload(uint16(mtu), bufA)
-		if !bytes.Equal(bufA, in) {
-			c.Failf("input-modified", "%s mtu=%d, stream of %d-byte inputs, call %d: Payload changed the caller's buffer", cfg.name, mtu, size, k)
+		if !bytes.Equal(bufA, in) || !intact() {
+			c.Failf("input-modified", "%s mtu=%d, stream of %d-byte inputs, call %d: Payload changed the caller's buffer (or its spare capacity)", cfg.name, mtu, size, k)
 		}
 		outB := b.Payload(uint16(mtu), bufB)
 		c.Ops(2)
